@@ -29,3 +29,13 @@ Inductive operand := ONode (n : node) | OSeq (l : list node).
 Definition opnd_flat (o : operand) : list node := match o with ONode n => [n] | OSeq l => l end.
 
 Inductive mres := MNew (V : list node) (E : list edge) | MUpdate (m : node) (V : list node) (E : list edge).
+
+(* Added for the translation of reservoirpy/ops.py :: link (py2coq_ops v3).
+   * [py4_lift] : a call, from a py4 function, of a callee translated over [py] (`_link_1to1`): its exceptions become [Py e].
+     The translator lifts only callees translated WITHOUT fuel (no `while`), which never yield [OutOfFuel]
+     (proofs/Gen_ops_eq.v: gen_link_1to1_is_model shows the only results are Val / Exc ValueError); the [OutOfFuel] line is
+     there only to make the function total.
+   * the parameters of `link` are [operand]s too: `isinstance(x, Sequence)` / `isinstance(x, Iterable)` holds exactly for
+     [OSeq l] (a list / tuple of objects; a str or any other Sequence / Iterable argument is outside the representation). *)
+Definition py4_lift {A} (x : py A) : py4 A :=
+  match x with Val a => Val4 a | Exc e => Exc4 (Py e) | OutOfFuel => Exc4 (Py RuntimeError) end.
